@@ -106,3 +106,60 @@ def carried(fn, header, body):
         if not blk.cleanup:
             w |= assigned_in(blk)
     return sorted(l for l in lv.get(header, ()) if l in w)
+
+
+CMP_OPS = {'Eq', 'Ne', 'Lt', 'Le', 'Gt', 'Ge'}
+
+
+def control_only(fn, local):
+    """does the value of `local` influence anything but branch conditions and its own next value?  Forward propagation through assignments; the
+    result of a comparison is control, not data.  Returns (True, None) or (False, description of the first data use)."""
+    cfg = cfg_of(fn)
+    taint = {local}
+    changed = True
+    blocks = [b for b in fn.blocks if not b.cleanup and b.id in cfg.reach]
+
+    def reads(s):
+        r = set()
+        for op in s.rv.operands():
+            _operand_uses(op, r)
+        if s.rv.place is not None:
+            r.add(s.rv.place.local)
+            _place_uses(s.rv.place, r)
+        return r
+    while changed:
+        changed = False
+        for b in blocks:
+            for s in b.stmts:
+                if s.k != 'assign' or not (reads(s) & taint):
+                    continue
+                if s.rv.k == 'bin' and s.rv.op in CMP_OPS:
+                    continue
+                if s.place.local not in taint and not s.place.proj:
+                    taint.add(s.place.local)
+                    changed = True
+    for b in blocks:
+        for s in b.stmts:
+            if s.k != 'assign':
+                continue
+            idx = set()
+            _place_uses(s.place, idx)
+            if s.rv.place is not None:
+                _place_uses(s.rv.place, idx)
+            if idx & taint:
+                return False, 'used as an index at line %d' % s.line
+            if s.place.proj and (reads(s) & taint) and not (s.rv.k == 'bin' and s.rv.op in CMP_OPS):
+                return False, 'stored into a structure at line %d' % s.line
+            if not s.place.proj and s.place.local == 0 and (reads(s) & taint):
+                return False, 'returned (line %d)' % s.line
+        t = b.term
+        if t.k == 'call':
+            u = set()
+            for a in t.args:
+                _operand_uses(a, u)
+            if u & taint:
+                seg = (t.callee.best or '?').split('::')[-1] if t.callee.indirect is None else 'indirect call'
+                if seg in ('eq', 'ne', 'lt', 'le', 'gt', 'ge', 'cmp', 'partial_cmp'):
+                    continue
+                return False, 'passed to `%s` at line %d' % (seg, t.line)
+    return True, None
